@@ -126,36 +126,55 @@ Definition bump (k : Z) (m : zmap Z) : zmap Z * Z :=
 
 Definition nparents (nd : node) : Z := Z.of_nat (length (n_parents nd)).
 
-(* for link in &next.offsets { ... } of sort_kahn *)
-Fixpoint kahn_links (nodes : zmap node) (ls : list link) (q : list Z) (removed : zmap Z)
-  : option (list Z * zmap Z) :=
-  match ls with
-  | [] => Some (q, removed)
-  | l :: r =>
-      let '(removed', seen) := bump (l_obj l) removed in
-      do nd <- mfind (l_obj l) nodes;;                      (* self.nodes[&link.object] *)
-      let q' := if seen =? nparents nd then heap_push_id (l_obj l) q else q in
-      kahn_links nodes r q' removed'
-  end.
+(* The main loops of sort_kahn and sort_shortest_distance are the same code up to the heap: [Q] is the
+   heap type, [St] extra loop state (obj_order of sort_shortest_distance), [qpop] = BinaryHeap::pop,
+   [qpush nd id s q] = the push performed for target [id] whose node is [nd]. *)
+Section SortLoop.
+  Variables (Q St : Type).
+  Variable qpop : Q -> option (Z * Q).
+  Variable qpush : node -> Z -> St -> Q -> option (Q * St).
 
-(* while let Some(id) = queue.pop() { ... }; fuel bounds the number of pops (each object is
-   pushed at most once per time its seen-count reaches its parent count, plus the root) *)
-Fixpoint kahn_loop (fuel : nat) (objs : zmap obj) (nodes : zmap node) (q : list Z)
-  (removed : zmap Z) (cur : Z) (order : list Z) : option (zmap node * zmap Z * list Z) :=
-  match q with
-  | [] => Some (nodes, removed, order)
-  | id :: q0 =>
-      match fuel with
-      | O => None
-      | S f =>
-          do next <- mfind id objs;;                          (* self.objects[&id] *)
-          do nd <- mfind id nodes;;                           (* nodes.get_mut(&id).unwrap() *)
-          let nodes' := minsert id (set_pos nd cur) nodes in
-          do cur' <- chk_u 32 (cur + blen (o_bytes next));;   (* current_pos += len as u32 *)
-          do qr <- kahn_links nodes' (o_links next) q0 removed;;
-          kahn_loop f objs nodes' (fst qr) (snd qr) cur' (order ++ [id])
-      end
-  end.
+  (* for link in &next.offsets { let seen = removed_edges.entry(..).or_insert(0); *seen += 1;
+       if *seen == self.nodes[&link.object].parents.len() { queue.push(..) } } *)
+  Fixpoint sort_links (nodes : zmap node) (ls : list link) (q : Q) (removed : zmap Z) (s : St)
+    : option (Q * zmap Z * St) :=
+    match ls with
+    | [] => Some (q, removed, s)
+    | l :: r =>
+        let '(removed', seen) := bump (l_obj l) removed in
+        do nd <- mfind (l_obj l) nodes;;                      (* self.nodes[&link.object] *)
+        if seen =? nparents nd then
+          do qs <- qpush nd (l_obj l) s q;;
+          sort_links nodes r (fst qs) removed' (snd qs)
+        else sort_links nodes r q removed' s
+    end.
+
+  (* while let Some(id) = queue.pop() { ... }; fuel bounds the number of pops *)
+  Fixpoint sort_loop (fuel : nat) (objs : zmap obj) (nodes : zmap node) (q : Q)
+    (removed : zmap Z) (cur : Z) (order : list Z) (s : St) : option (zmap node * zmap Z * list Z) :=
+    match qpop q with
+    | None => Some (nodes, removed, order)
+    | Some (id, q0) =>
+        match fuel with
+        | O => None
+        | S f =>
+            do next <- mfind id objs;;                          (* self.objects[&id] *)
+            do nd <- mfind id nodes;;                           (* nodes.get_mut(&id).unwrap() *)
+            let nodes' := minsert id (set_pos nd cur) nodes in
+            do cur' <- chk_u 32 (cur + blen (o_bytes next));;   (* current_pos += len as u32 *)
+            do r <- sort_links nodes' (o_links next) q0 removed s;;
+            let '(q', removed', s') := r in
+            sort_loop f objs nodes' q' removed' cur' (order ++ [id]) s'
+        end
+    end.
+End SortLoop.
+
+(* sort_kahn's heap: BinaryHeap<Reverse<ObjectId>> *)
+Definition kahn_pop (q : list Z) : option (Z * list Z) :=
+  match q with [] => None | id :: q0 => Some (id, q0) end.
+Definition kahn_push (nd : node) (id : Z) (s : unit) (q : list Z) : option (list Z * unit) :=
+  Some (heap_push_id id q, s).
+Definition kahn_loop := sort_loop (list Z) unit kahn_pop kahn_push.
 
 (* for (id, seen_len) in &removed_edges { if seen != parents.len() { panic!("cycle or something?") } }
    (HashMap iteration; the outcome — panic iff some entry differs — does not depend on the order) *)
@@ -177,7 +196,7 @@ Definition sort_kahn (g : graph) : option graph :=
   else
     do g1 <- update_parents g;;
     do r <- kahn_loop (2 + length (g_nodes g1) + total_links (g_objs g1)) (g_objs g1) (g_nodes g1)
-              [g_root g1] [] 0 [];;
+              [g_root g1] [] 0 [] tt;;
     let '(nodes, removed, order) := r in
     do ok <- removed_ok nodes removed;;
     if ok then Some (mkGraph (g_objs g1) nodes order (g_root g1) false)
@@ -296,37 +315,14 @@ Fixpoint heap_push_sd (x : Z * Z * Z * Z) (q : list (Z * Z * Z * Z)) : list (Z *
   | y :: r => if sd_before x y then x :: q else y :: heap_push_sd x r
   end.
 
-Fixpoint sd_links (nodes : zmap node) (ls : list link) (q : list (Z * Z * Z * Z))
-  (removed : zmap Z) (obj_order : Z) : option (list (Z * Z * Z * Z) * zmap Z * Z) :=
-  match ls with
-  | [] => Some (q, removed, obj_order)
-  | l :: r =>
-      let '(removed', seen) := bump (l_obj l) removed in
-      do nd <- mfind (l_obj l) nodes;;
-      if seen =? nparents nd then
-        do oo <- chk_u 32 (obj_order + 1);;                     (* obj_order += 1 (u32) *)
-        sd_links nodes r (heap_push_sd (modified_distance nd obj_order, l_obj l) q) removed' oo
-      else sd_links nodes r q removed' obj_order
-  end.
-
-Fixpoint sd_loop (fuel : nat) (objs : zmap obj) (nodes : zmap node) (q : list (Z * Z * Z * Z))
-  (removed : zmap Z) (cur : Z) (order : list Z) (obj_order : Z)
-  : option (zmap node * zmap Z * list Z) :=
-  match q with
-  | [] => Some (nodes, removed, order)
-  | (_, id) :: q0 =>
-      match fuel with
-      | O => None
-      | S f =>
-          do next <- mfind id objs;;
-          do nd <- mfind id nodes;;
-          let nodes' := minsert id (set_pos nd cur) nodes in
-          do cur' <- chk_u 32 (cur + blen (o_bytes next));;
-          do r <- sd_links nodes' (o_links next) q0 removed obj_order;;
-          let '(q', removed', oo) := r in
-          sd_loop f objs nodes' q' removed' cur' (order ++ [id]) oo
-      end
-  end.
+(* sort_shortest_distance's heap: BinaryHeap<(Reverse<Distance>, ObjectId)>; state = obj_order *)
+Definition sd_pop (q : list (Z * Z * Z * Z)) : option (Z * list (Z * Z * Z * Z)) :=
+  match q with [] => None | (_, id) :: q0 => Some (id, q0) end.
+Definition sd_push (nd : node) (id : Z) (obj_order : Z) (q : list (Z * Z * Z * Z))
+  : option (list (Z * Z * Z * Z) * Z) :=
+  do oo <- chk_u 32 (obj_order + 1);;                           (* obj_order += 1 (u32) *)
+  Some (heap_push_sd (modified_distance nd obj_order, id) q, oo).
+Definition sd_loop := sort_loop (list (Z * Z * Z * Z)) Z sd_pop sd_push.
 
 Definition sort_shortest_distance (g : graph) : option graph :=
   do g1 <- update_parents g;;
@@ -552,6 +548,75 @@ Definition dump_table_perm (perm : list (obj * Z) -> list (obj * Z)) (d : dag) (
 Definition dump_table (d : dag) (ids : list Z) : result := dump_table_perm (fun l => l) d ids.
 
 (* ------------------------------------------------------------------------------------------ *)
+(* specification side (executable): prefix-sum positions and the decidable form [layout_okb] of the
+   hypotheses of the gate theorem (coq/C05/Proofs.v: layout_okb_sound : layout_okb = true -> layout_ok) *)
+Definition size_of (objs : zmap obj) (id : Z) : Z :=
+  match mfind id objs with Some o => blen (o_bytes o) | None => 0 end.
+Definition bytes_of (objs : zmap obj) (id : Z) : list Z :=
+  match mfind id objs with Some o => o_bytes o | None => [] end.
+(* prefix sums: position of (the first occurrence of) [id] in the layout [ord] *)
+Fixpoint posof (objs : zmap obj) (ord : list Z) (id : Z) : Z :=
+  match ord with
+  | [] => 0
+  | x :: r => if x =? id then 0 else size_of objs x + posof objs r id
+  end.
+Fixpoint total_size (objs : zmap obj) (ord : list Z) : Z :=
+  match ord with [] => 0 | id :: r => size_of objs id + total_size objs r end.
+
+Fixpoint index_of (x : Z) (l : list Z) : option nat :=
+  match l with
+  | [] => None
+  | y :: r => if y =? x then Some O else option_map S (index_of x r)
+  end.
+Fixpoint nodupb (l : list Z) : bool :=
+  match l with [] => true | x :: r => negb (zmem x r) && nodupb r end.
+Fixpoint links_wfb (lo : Z) (ls : list link) (len : Z) : bool :=
+  match ls with
+  | [] => true
+  | l :: r => (lo <=? l_pos l) && ((l_width l =? 2) || (l_width l =? 3) || (l_width l =? 4)) &&
+              (l_pos l + l_width l <=? len) && links_wfb (l_pos l + l_width l) r len
+  end.
+Definition link_okb (objs : zmap obj) (ord : list Z) (id : Z) (l : link) : bool :=
+  zmem (l_obj l) ord && (0 <=? l_adj l) &&
+  (posof objs ord id + l_adj l <=? posof objs ord (l_obj l)) &&
+  (posof objs ord (l_obj l) - (posof objs ord id + l_adj l) <=? max_value (l_width l)) &&
+  match index_of id ord, index_of (l_obj l) ord with
+  | Some i, Some j => (i <? j)%nat
+  | _, _ => false
+  end.
+Definition layout_okb (objs : zmap obj) (ord : list Z) : bool :=
+  negb (match ord with [] => true | _ => false end) && nodupb ord &&
+  (total_size objs ord <? 2 ^ 32) &&
+  forallb (fun id => match mfind id objs with
+                     | None => false
+                     | Some o => links_wfb 0 (o_links o) (blen (o_bytes o)) &&
+                                 forallb (link_okb objs ord id) (o_links o)
+                     end) ord.
+
+(* decidable form of the hypotheses on the object map used by the end-to-end theorem
+   (coq/C05/Sort.v graph_hypsb_sound : graph_hypsb = true -> graph_hyps) *)
+Definition graph_hypsb (objs : zmap obj) (root : Z) : bool :=
+  (match mfind root objs with Some _ => true | None => false end) &&
+  forallb (fun kv => links_wfb 0 (o_links (snd kv)) (blen (o_bytes (snd kv))) &&
+                     forallb (fun l => negb (l_obj l =? root) && (l_adj l =? 0)) (o_links (snd kv))) objs.
+
+(* the graph pack_objects returns when it reports success *)
+Definition packed_graph (objs : zmap obj) (root : Z) : option graph :=
+  match from_objects objs root with
+  | None => None
+  | Some g => match pack_objects g with Some (g', Packed) => Some g' | _ => None end
+  end.
+(* node positions recorded by the sort = prefix sums of the order *)
+Definition positions_matchb (g : graph) : bool :=
+  forallb (fun id => match mfind id (g_nodes g) with
+                     | Some nd => n_pos nd =? posof (g_objs g) (g_order g) id
+                     | None => false
+                     end) (g_order g).
+(* the description only uses offset widths 2,3,4 (other widths are API misuse: see notes) *)
+Definition widths_ok (d : dag) : bool :=
+  forallb (forallb (fun it => match it with ILink w _ => (2 <=? w) && (w <=? 4) | _ => true end)) d.
+
+(* ------------------------------------------------------------------------------------------ *)
 (* correspondence case format (written by harness/src/bin/c05.rs and c07.rs)
 
    case = (dag, (base, step), (tag, rle)) : the real dump_table on the described object returned
@@ -572,14 +637,32 @@ Definition id_stream (base step : Z) (n : nat) : list Z :=
 
 Definition case_ty : Type := dag * (Z * Z) * (Z * list (Z * Z)).
 
+(* On every case where the model reports success the hypotheses of the theorems are evaluated as well:
+   [graph_hypsb] on the object map the store produced (hypothesis of c05_pack_success_resolves) and
+   [layout_okb], [positions_matchb] on the packed graph (hypotheses of the gate theorem); skipped for
+   misuse widths.  So for every such case the theorems apply to exactly the bytes that were compared
+   with the implementation. *)
 Definition check_case (c : case_ty) : bool :=
   let '(d, (base, step), (tag, expect)) := c in
-  match dump_table d (id_stream base step (4 * length d + 4)) with
-  | RBytes out => (tag =? 0) && list_eqb pair_eqb (rle out) expect
-  | RFailed => tag =? 1
-  | RPanic => tag =? 2
-  | RBeyond => true                     (* no prediction: only the implementation-only oracle applies *)
-  | RBadCase => false
+  match add_table (S (length d)) d 0%nat (mkStore [] (id_stream base step (4 * length d + 4))) with
+  | None => false
+  | Some (st, root) =>
+      let objs := objs_of_store (st_objs st) in
+      match dump_graph objs root with
+      | RBytes out =>
+          (tag =? 0) && list_eqb pair_eqb (rle out) expect &&
+          (negb (widths_ok d) ||
+           match packed_graph objs root with
+           | Some g' => graph_hypsb objs root &&
+                        layout_okb (g_objs g') (g_order g') && positions_matchb g' &&
+                        (match g_order g' with x :: _ => x =? root | [] => false end)
+           | None => false
+           end)
+      | RFailed => tag =? 1
+      | RPanic => tag =? 2
+      | RBeyond => true                 (* no prediction: only the implementation-only oracle applies *)
+      | RBadCase => false
+      end
   end.
 
 (* variant used by C07 shards: the bytes must not depend on the id stream — the model is run with
